@@ -107,6 +107,8 @@ def short(v):
 def classify(v):
     """stable class name of a vector for signatures"""
     p = v["payload"]
+    if isinstance(p, dict) and "shape" in p:
+        return "cps-%s-%s" % (p["shape"], "".join(ch if ch.isalnum() else "_" for ch in p["val"])[:16])
     if isinstance(p, dict):
         return "%s-%d" % (p["kind"], p["n"])
     if v["form"] == "error":
